@@ -5,7 +5,9 @@ set -u
 P="$1"; shift
 cd /repo || exit 2
 [ -z "$(git status --porcelain)" ] || { echo "/repo not clean"; exit 2; }
-trap 'git -C /repo reset -q --hard HEAD ; git -C /repo status --porcelain' EXIT
+# the checks rewrite /verif/evidence on every run: keep the clean-tree evidence
+rm -rf /verif/.build/evidence.keep; cp -r /verif/evidence /verif/.build/evidence.keep
+trap 'git -C /repo reset -q --hard HEAD ; git -C /repo status --porcelain; rm -rf /verif/evidence; mv /verif/.build/evidence.keep /verif/evidence' EXIT
 git apply "$P" 2>/dev/null || git apply -3 "$P" >/dev/null 2>&1 || { echo "$P: rc=2 patch does not apply to HEAD"; exit 2; }
 for prop in "$@"; do
   out=$(cd /verif && ./check $prop --tier quick 2>&1); rc=$?
